@@ -1,9 +1,95 @@
 import CotengraVerif.Driver.Util
+import CotengraVerif.Model.EinsumFront
 
 namespace Cotengra.Driver.C12
-open Lean Cotengra Cotengra.Driver
+open Lean Cotengra Cotengra.Driver Cotengra.Front
 
-/-- ops of property C12 (name them "c12.<op>") -/
-def handlers : List (String × Handler) := []
+def optNatOf (j : Json) : Except String (Option Nat) :=
+  match j with
+  | .null => pure none
+  | _ => do pure (some (← natOf j))
+
+def optNatList (j : Json) : Except String (List (Option Nat)) := do
+  (← arrOf j).mapM optNatOf
+
+def jErr : Front.Err → Json
+  | .value => jObj [("err", jStr "ValueError")]
+  | .key => jObj [("err", jStr "KeyError")]
+
+def cfgOf (j : Json) : Except String Cfg := do
+  let b (k : String) : Except String Bool := (fieldD j k (Json.bool false)).getBool?
+  pure ⟨← b "strip_spaces", ← b "out_only_ellipsis", ← b "sorted_implicit"⟩
+
+/-- op `c12.parse`: `parse_equation_ellipses(eq, shapes, tuples=True)` -/
+def parse : Handler := fun j => do
+  let eq ← natList (← field j "eq")
+  let ranks ← natList (← field j "ranks")
+  match parseEllipses (← cfgOf j) eq ranks with
+  | .ok (ins, out) => pure (jObj [("inputs", jNatss ins), ("output", jNats out)])
+  | .error e => pure (jErr e)
+
+/-- op `c12.interleaved`: `convert_from_interleaved` -/
+def interleaved : Handler := fun j => do
+  let ins ← (← arrOf (← field j "inputs")).mapM optNatList
+  let out ← match j.getObjVal? "output" with
+    | .ok .null => pure none
+    | .ok o => do pure (some (← optNatList o))
+    | .error _ => pure none
+  match convertInterleaved (← cfgOf j).sortedImplicit ins out with
+  | .ok eq => pure (jObj [("eq", jNats eq)])
+  | .error e => pure (jErr e)
+
+/-- op `c12.canon`: `canonicalize_inputs(inputs, output)` -/
+def canon : Handler := fun j => do
+  let ins ← natListList (← field j "inputs")
+  let out ← match j.getObjVal? "output" with
+    | .ok .null => pure none
+    | .ok o => do pure (some (← natList o))
+    | .error _ => pure none
+  let (ni, no) := canonicalize ins out
+  pure (jObj [("inputs", jNatss ni), ("output", jNats no)])
+
+/-- op `c12.findout`: `find_output_from_inputs` and `find_output_str` -/
+def findout : Handler := fun j => do
+  match j.getObjVal? "lhs" with
+  | .ok l => do pure (jObj [("output", jNats (findOutputStr (← natList l)))])
+  | .error _ =>
+    let ins ← natListList (← field j "inputs")
+    pure (jObj [("output", jNats (findOutputFromInputs ins))])
+
+/-- op `c12.single`: which fast path `_build_expression` takes for one operand -/
+def single : Handler := fun j => do
+  let t ← natList (← field j "term")
+  let o ← natList (← field j "output")
+  match singlePath t o with
+  | .identity => pure (jObj [("path", jStr "identity")])
+  | .transpose p => pure (jObj [("path", jStr "transpose"), ("perm", jNats p)])
+  | .einsum => pure (jObj [("path", jStr "einsum")])
+
+/-- op `c12.pathok`: is the path the real code took admissible? -/
+def pathok : Handler := fun j => do
+  let t ← natList (← field j "term")
+  let o ← natList (← field j "output")
+  let p ← (← field j "path").getStr?
+  let sp ← match p with
+    | "identity" => pure SinglePath.identity
+    | "einsum" => pure SinglePath.einsum
+    | "transpose" => do pure (SinglePath.transpose (← natList (← field j "perm")))
+    | _ => throw "unknown path"
+  pure (jObj [("ok", jBool (pathOK t o sp))])
+
+/-- op `c12.ncon`: output labels of `ncon` -/
+def ncon : Handler := fun j => do
+  let ind ← (← arrOf (← field j "indices")).mapM fun t => do (← arrOf t).mapM intOf
+  pure (jObj [("output", Json.arr ((nconOutput ind).map jInt).toArray)])
+
+/-- op `c12.symbol`: `get_symbol(i)` -/
+def symbol : Handler := fun j => do
+  let l ← natList (← field j "is")
+  pure (jObj [("cps", jNats (l.map getSymbol))])
+
+def handlers : List (String × Handler) :=
+  [("c12.parse", parse), ("c12.interleaved", interleaved), ("c12.canon", canon),
+   ("c12.findout", findout), ("c12.single", single), ("c12.pathok", pathok), ("c12.ncon", ncon), ("c12.symbol", symbol)]
 
 end Cotengra.Driver.C12
